@@ -28,6 +28,7 @@ def main():
     feats = ''
     checks = [prop]
     src = '/tmp/wt/%s-out' % prop
+    name = which
     for i, a in enumerate(sys.argv):
         if a == '--features':
             feats = sys.argv[i + 1]
@@ -35,6 +36,8 @@ def main():
             checks = sys.argv[i + 1].split(',')
         if a == '--src':
             src = sys.argv[i + 1]
+        if a == '--name':
+            name = sys.argv[i + 1]
     patch = os.path.join(src, '%s.diff' % which)
     demo = os.path.join(src, 'demo_%s.rs' % which)
     if not (os.path.exists(patch) and os.path.exists(demo)):
@@ -42,7 +45,7 @@ def main():
         return 2
     work = tempfile.mkdtemp(prefix='seed-%s-' % prop)
     env = dict(os.environ, CARGO_NET_OFFLINE='true', CARGO_TARGET_DIR=os.path.join(work, 'target'))
-    meta = {'property': prop, 'variant': which, 'features': feats, 'ran': []}
+    meta = {'property': prop, 'variant': name, 'features': feats, 'ran': []}
     try:
         repo = os.path.join(work, 'repo')
         sh('rsync -a --exclude target --exclude .git /repo/ %s/' % repo)
@@ -74,7 +77,7 @@ def main():
         os.remove(os.path.join(repo, 'tests', demo_name + '.rs'))
         valid = base_pass and suite_pass and demo_fails and compiled
         meta['valid'] = valid
-        print('%s-%s: demo passes unpatched=%s, suite passes patched=%s, demo fails patched=%s (compiled=%s) => valid=%s' % (prop, which, base_pass, suite_pass, demo_fails, compiled, valid))
+        print('%s-%s(%s): demo passes unpatched=%s, suite passes patched=%s, demo fails patched=%s (compiled=%s) => valid=%s' % (prop, name, which, base_pass, suite_pass, demo_fails, compiled, valid))
         # my checks on the patched tree
         det = {}
         env2 = dict(os.environ, VERIF_REPO=repo)
@@ -86,7 +89,7 @@ def main():
         meta['detected_by'] = det
         meta['detected'] = any(d['exit'] == 1 for d in det.values())
         if valid:
-            out_dir = os.path.join(V, 'seeded', '%s-%s' % (prop, which))
+            out_dir = os.path.join(V, 'seeded', '%s-%s' % (prop, name))
             os.makedirs(out_dir, exist_ok=True)
             shutil.copy(patch, os.path.join(out_dir, 'patch.diff'))
             shutil.copy(demo, os.path.join(out_dir, 'demo.rs'))
